@@ -322,7 +322,12 @@ func (b *BloomSearchEngine) Stop(ctx context.Context) error {
 		return nil
 	case <-ctx.Done():
 		verifEvent("stop.ret.deadline", 0, 0)
-		// Timeout occurred
+		// Timeout occurred. Cancel flush work here rather than relying on the
+		// AfterFunc alone: its callback runs on its own goroutine (and, with a
+		// custom Context, whenever that implementation gets to it), so without
+		// this a queued flush could still start store work after Stop has
+		// already reported the deadline.
+		b.flushCancel()
 		return fmt.Errorf("shutdown timeout exceeded: %w", ctx.Err())
 	}
 }
